@@ -73,10 +73,12 @@ pub mod vocab {
         Remove(Seq<char>),
         /// DashMap::get(key) and what it held
         Get(Seq<char>, Option<ActorCell>),
+        /// DashMap::try_get(key): a look that gives up (`Locked`) when the shard is busy -- it does not say whether the name is held
+        TryGet(Seq<char>),
     }
-    pub enum Kind { Entry, Insert, Remove, Get }
+    pub enum Kind { Entry, Insert, Remove, Get, TryGet }
     pub open spec fn kind_of(e: Effect) -> Kind {
-        match e { Effect::Entry(_, _) => Kind::Entry, Effect::Insert(_, _) => Kind::Insert, Effect::Remove(_) => Kind::Remove, Effect::Get(_, _) => Kind::Get }
+        match e { Effect::Entry(_, _) => Kind::Entry, Effect::Insert(_, _) => Kind::Insert, Effect::Remove(_) => Kind::Remove, Effect::Get(_, _) => Kind::Get, Effect::TryGet(_) => Kind::TryGet }
     }
     }
 }
@@ -84,6 +86,8 @@ pub use vocab::*;
 // @include ../_common/effectlog.rs
 
 verus! {
+/// dashmap::try_result::TryResult
+pub enum TryResult<R> { Present(R), Absent, Locked }
 pub open spec fn entry_key(e: Effect) -> Seq<char> { match e { Effect::Entry(k, _) => k, _ => Seq::empty() } }
 pub open spec fn entry_occupied(e: Effect) -> bool { match e { Effect::Entry(_, o) => o, _ => false } }
 // ------------------------------------------------------------------ abstract registry (what the atomic entry operations mean) and the C10 lemma
@@ -159,6 +163,13 @@ impl RegistryMap {
         ensures final(log).s == old(log).s.push(Effect::Get(key@, match r { Some(x) => Some(x.value_view()), None => None })),
     )]
     pub fn get(&self, key: &str) -> Option<MapRef> { unimplemented!() }
+    /// `DashMap::try_get`: may answer `Locked` at any time, whatever the map holds
+    #[verus_verify(external_body)]
+    #[verus_spec(r =>
+        with Tracked(log): Tracked<&mut EffectLog>
+        ensures final(log).s == old(log).s.push(Effect::TryGet(key@)),
+    )]
+    pub fn try_get(&self, key: &str) -> TryResult<MapRef> { unimplemented!() }
 }
 
 #[verus_verify]
